@@ -348,3 +348,14 @@ package history
 //@   allow_alias the held line becomes the buffer (Line.Set keeps the slice); the deferred reset drops acceptLine before Init returns, so no second reference survives
 //@   requires hist != nil && hist.line != nil && hist.cursor != nil
 //@   ensures [accept-state-cleared] !hist.accepted && hist.acceptErr == nil && len(hist.acceptLine) == 0 && hist.cpos == -1
+
+// NewSources derives the recording limit from the configuration (C08: "a configured history-size limit stops
+// recording only once a source already holds that many entries"): a configured limit is kept as it is, and
+// without one (the default configuration stores the int 0) recording is never stopped (-1: isfull is false).
+//@ func NewSources
+//@   props C08 C01
+//@   terminates
+//@   requires opts != nil
+//@   ensures [structure] fresh(result) && result.line == line && result.cursor == cur && result.hint == hint && result.config == opts && result.hpos == -1 && result.cpos == -1 && result.list != nil && result.lines != nil && len(result.names) == 1 && result.sourcePos == 0 && !result.undoing && !result.skip && !result.accepted && !result.infer && !result.acceptHold
+//@   ensures @C08 [configured-limit-kept] inputrc.cfgint(opts, "history-size") != 0 ==> result.maxEntries == inputrc.cfgint(opts, "history-size")
+//@   ensures @C08 [no-limit-unless-configured] inputrc.cfgint(opts, "history-size") == 0 && !inputrc.cfgisstr(opts, "history-size") ==> result.maxEntries == -1
